@@ -265,3 +265,179 @@ func VH_C20_MarshalAfterDecrypt() {
 	zzverif.Reach("encoded")
 	zzverif.Public("wire-encoding-after-decrypt", b, err)
 }
+
+// ---- C10: the requests sent carry the configured encryption types, options and lifetimes -------------------
+
+func vhFlagWord(f asn1.BitString) uint32 {
+	var w uint32
+	for i := 0; i < 4 && i < len(f.Bytes); i++ {
+		w |= uint32(f.Bytes[i]) << (24 - 8*uint(i))
+	}
+	return w
+}
+
+func vhBit(set bool, n uint) uint32 {
+	if set {
+		return 1 << (31 - n)
+	}
+	return 0
+}
+
+func vhReqConfig() *config.Config {
+	var c config.Config
+	c.LibDefaults.KDCDefaultOptions = types.NewKrbFlags()
+	c.LibDefaults.Forwardable, c.LibDefaults.Canonicalize, c.LibDefaults.Proxiable = zzverif.Bool(), zzverif.Bool(), zzverif.Bool()
+	c.LibDefaults.RenewLifetime = time.Duration(zzverif.Int64())
+	c.LibDefaults.TicketLifetime = time.Duration(zzverif.Int64())
+	zzverif.Assume(c.LibDefaults.RenewLifetime >= 0 && c.LibDefaults.RenewLifetime < 1<<50)
+	zzverif.Assume(c.LibDefaults.TicketLifetime > 0 && c.LibDefaults.TicketLifetime < 1<<50)
+	c.LibDefaults.NoAddresses = true
+	c.LibDefaults.DefaultTktEnctypeIDs = []int32{zzverif.Int32(), zzverif.Int32()}
+	c.LibDefaults.DefaultTGSEnctypeIDs = []int32{zzverif.Int32()}
+	return &c
+}
+
+func vhBodyFields(b KDCReqBody, c *config.Config, realm string, cname, sname types.PrincipalName, etypes []int32, renewal bool, now time.Time) {
+	rl := c.LibDefaults.RenewLifetime
+	zzverif.Assert("request-names-and-realm", zzverif.All(b.Realm == realm, vhNameEq(b.CName, cname), vhNameEq(b.SName, sname)))
+	ok := len(b.EType) == len(etypes)
+	for i := 0; ok && i < len(etypes); i++ {
+		ok = zzverif.And(ok, b.EType[i] == etypes[i])
+	}
+	zzverif.Assert("request-carries-configured-etypes", ok)
+	want := vhBit(c.LibDefaults.Forwardable, 1) | vhBit(c.LibDefaults.Proxiable, 3) | vhBit(c.LibDefaults.Canonicalize, 15) | vhBit(rl != 0 || renewal, 8) | vhBit(renewal, 30)
+	zzverif.Assert("request-carries-configured-options", b.KDCOptions.BitLength == 32 && vhFlagWord(b.KDCOptions) == want)
+	zzverif.Assert("till-is-now-plus-ticket-lifetime", b.Till.Equal(now.Add(c.LibDefaults.TicketLifetime)))
+	if rl != 0 {
+		zzverif.Reach("renewable")
+		zzverif.Assert("rtime-is-now-plus-renew-lifetime", b.RTime.Equal(now.Add(rl)))
+	} else {
+		zzverif.Assert("no-rtime-without-renew-lifetime", b.RTime.IsZero())
+	}
+	zzverif.Assert("nonce-in-range", b.Nonce >= 0 && b.Nonce < 1<<31-1)
+	zzverif.Assert("no-addresses-when-configured", len(b.Addresses) == 0)
+}
+
+func VH_C10_ASReqFields() {
+	c := vhReqConfig()
+	realm, cname, sname := zzverif.String(1), vhName(1, 1), vhName(2, 1)
+	a, err := NewASReq(realm, c, cname, sname)
+	now := zzverif.Now()
+	zzverif.Assert("request-built", err == nil)
+	zzverif.Assert("as-req-header", a.PVNO == 5 && a.MsgType == 10 && len(a.PAData) == 0)
+	vhBodyFields(a.ReqBody, c, realm, cname, sname, c.LibDefaults.DefaultTktEnctypeIDs, false, now)
+	zzverif.Reach("checked")
+}
+
+// VH_C10_TGSReqFields: the TGS-REQ body, and the PA-TGS-REQ: an AP-REQ with the TGT and an authenticator
+// under the TGT session key (usage 7) whose checksum (usage 6) is over the encoded request body.
+func VH_C10_TGSReqFields() {
+	c := vhReqConfig()
+	et := zzverif.Param("etype")
+	realm, cname, sname := zzverif.String(1), vhName(1, 1), vhName(2, 1)
+	renewal := zzverif.Bool()
+	tgt := Ticket{TktVNO: 5, Realm: zzverif.String(1), SName: types.NewPrincipalName(2, "krbtgt/R"), EncPart: types.EncryptedData{EType: 18, KVNO: 1, Cipher: zzverif.Bytes(2)}}
+	key := types.EncryptionKey{KeyType: int32(et), KeyValue: zzverif.Bytes(crypto.VHKeyLen(et))}
+	k, err := NewTGSReq(cname, realm, c, tgt, key, sname, renewal)
+	now := zzverif.Now()
+	zzverif.Assert("request-built", err == nil)
+	zzverif.Assert("tgs-req-header", k.PVNO == 5 && k.MsgType == 12)
+	vhBodyFields(k.ReqBody, c, realm, cname, sname, c.LibDefaults.DefaultTGSEnctypeIDs, renewal, now)
+	zzverif.Assert("one-pa-tgs-req", len(k.PAData) == 1 && k.PAData[0].PADataType == 1)
+	if len(k.PAData) != 1 {
+		return
+	}
+	var ap APReq
+	zzverif.Assert("pa-tgs-req-is-an-ap-req", ap.Unmarshal(k.PAData[0].PADataValue) == nil)
+	zzverif.Assert("ap-req-carries-the-tgt", zzverif.All(ap.PVNO == 5, ap.MsgType == 14, ap.Ticket.Realm == tgt.Realm, ap.Ticket.SName.Equal(tgt.SName), zzverif.EqBytes(ap.Ticket.EncPart.Cipher, tgt.EncPart.Cipher)))
+	ab, derr := crypto.DecryptEncPart(ap.EncryptedAuthenticator, key, 7)
+	zzverif.Assert("authenticator-under-tgt-session-key-usage-7", derr == nil)
+	var au types.Authenticator
+	zzverif.Assert("authenticator-decodes", au.Unmarshal(ab) == nil)
+	bb, _ := k.ReqBody.Marshal()
+	zzverif.Assert("authenticator-names-the-client", zzverif.All(au.AVNO == 5, au.CRealm == tgt.Realm, vhNameEq(au.CName, cname)))
+	zzverif.Assert("checksum-over-request-body-usage-6", zzverif.And(au.Cksum.CksumType == crypto.VHCksumID(et), zzverif.EqBytes(au.Cksum.Checksum, crypto.VHSpecChecksum(et, key.KeyValue, bb, 6))))
+	zzverif.Reach("checked")
+}
+
+// ---- C13: re-encoding is not disturbed by decrypting; ticket sequences are framed as DER ---------------------
+
+// VH_C13_MarshalStableAcrossDecrypt: the encoding of a message is the same before and after its encrypted
+// part was decrypted (the decrypted part is kept next to the encrypted one in the same object).
+// asn1.Marshal is an uninterpreted function of the value it is given.
+func VH_C13_MarshalStableAcrossDecrypt() {
+	key := types.EncryptionKey{KeyType: 18, KeyValue: zzverif.Bytes(4)}
+	tkt := Ticket{TktVNO: 5, Realm: zzverif.String(1), SName: vhName(2, 1), EncPart: types.EncryptedData{EType: 18, KVNO: zzverif.Int(), Cipher: zzverif.Bytes(2)}}
+	dec := EncTicketPart{Flags: types.NewKrbFlags(), Key: key, CRealm: zzverif.String(1), CName: vhName(1, 1), AuthTime: zzverif.AnyTime(), EndTime: zzverif.AnyTime()}
+	var b1, b2 []byte
+	var e1, e2 error
+	switch zzverif.Param("type") {
+	case 0:
+		b1, e1 = tkt.Marshal()
+		tkt.DecryptedEncPart = dec
+		b2, e2 = tkt.Marshal()
+	case 1:
+		a := APReq{PVNO: 5, MsgType: 14, APOptions: types.NewKrbFlags(), Ticket: tkt, EncryptedAuthenticator: types.EncryptedData{EType: 18, Cipher: zzverif.Bytes(2)}}
+		b1, e1 = a.Marshal()
+		a.Ticket.DecryptedEncPart = dec
+		a.Authenticator = types.Authenticator{AVNO: 5, CRealm: zzverif.String(1), CName: vhName(1, 1), SubKey: key, CTime: zzverif.AnyTime()}
+		b2, e2 = a.Marshal()
+	case 2:
+		var k ASRep
+		k.PVNO, k.MsgType, k.CRealm, k.CName, k.Ticket = 5, 11, zzverif.String(1), vhName(1, 1), tkt
+		k.EncPart = types.EncryptedData{EType: 18, Cipher: zzverif.Bytes(2)}
+		b1, e1 = k.Marshal()
+		k.DecryptedEncPart = EncKDCRepPart{Key: key, Nonce: zzverif.Int(), SRealm: zzverif.String(1), SName: vhName(2, 1)}
+		b2, e2 = k.Marshal()
+	case 3:
+		var k TGSRep
+		k.PVNO, k.MsgType, k.CRealm, k.CName, k.Ticket = 5, 13, zzverif.String(1), vhName(1, 1), tkt
+		k.EncPart = types.EncryptedData{EType: 18, Cipher: zzverif.Bytes(2)}
+		b1, e1 = k.Marshal()
+		k.DecryptedEncPart = EncKDCRepPart{Key: key, Nonce: zzverif.Int(), SRealm: zzverif.String(1), SName: vhName(2, 1)}
+		k.Ticket.DecryptedEncPart = dec
+		b2, e2 = k.Marshal()
+	default:
+		k := KRBPriv{PVNO: 5, MsgType: 21, EncPart: types.EncryptedData{EType: 18, Cipher: zzverif.Bytes(2)}}
+		b1, e1 = k.Marshal()
+		k.DecryptedEncPart = EncKrbPrivPart{UserData: zzverif.Bytes(3), Timestamp: zzverif.AnyTime(), SequenceNumber: zzverif.Int64()}
+		b2, e2 = k.Marshal()
+	}
+	zzverif.Reach("encoded-twice")
+	zzverif.Assert("encodes", e1 == nil && e2 == nil)
+	zzverif.Assert("same-encoding-after-decrypt", zzverif.EqBytes(b1, b2))
+}
+
+// VH_C13_TicketSequenceFraming: MarshalTicketSequence frames n tickets as a DER SEQUENCE: tag 0x30, the
+// minimal definite length, then the tickets' encodings in order (the tickets' own encodings are opaque).
+func VH_C13_TicketSequenceFraming() {
+	n := zzverif.Param("n")
+	var tkts []Ticket
+	var want []byte
+	for i := 0; i < n; i++ {
+		t := Ticket{TktVNO: 5, Realm: zzverif.String(1), SName: vhName(1, 1), EncPart: types.EncryptedData{EType: 18, Cipher: zzverif.Bytes(1)}}
+		tkts = append(tkts, t)
+		b, err := t.Marshal()
+		zzverif.Assume(err == nil)
+		want = append(want, b...)
+	}
+	raw, err := MarshalTicketSequence(tkts)
+	zzverif.Assert("encodes", err == nil)
+	zzverif.Assert("context-class-constructed", raw.Class == 2 && raw.IsCompound)
+	if n == 0 {
+		zzverif.Assert("empty-sequence-has-no-bytes", len(raw.Bytes) == 0)
+		return
+	}
+	var hdr []byte
+	L := len(want)
+	switch {
+	case L < 128:
+		hdr = []byte{0x30, byte(L)}
+	case L < 256:
+		hdr = []byte{0x30, 0x81, byte(L)}
+	default:
+		hdr = []byte{0x30, 0x82, byte(L >> 8), byte(L)}
+	}
+	zzverif.Reach("framed")
+	zzverif.Assert("der-sequence-of-the-tickets-in-order", zzverif.EqBytes(raw.Bytes, append(hdr, want...)))
+}
